@@ -285,6 +285,7 @@ def _memory_layout(ctx):
     _binop_lowering(ctx)
     _shape_stack(ctx)
     _no_silent_edge_drop(ctx)
+    _return_lowering(ctx)
 
 
 def _paths(stmts, state, fresh):
@@ -502,3 +503,40 @@ def _no_silent_edge_drop(ctx):
     raises = [x for st in br[0].body for x in ast.walk(st) if isinstance(x, ast.Raise)]
     ctx.ob("C23.R11", site, "`nothing to emit` is returned only for the pending follow-up of an if; any other marked target raises (an inner loop header reached from a second branch, a join that is not the post-dominator ...)", bool(none_rets) and guarded and bool(raises),
            construct="no-silent-drop", node=none_rets[0] if none_rets else br[0], detail="None returned %s; raises in the branch: %d" % ("only under a follow-up test" if guarded else "without testing that the node is the pending follow-up", len(raises)))
+
+
+def _return_lowering(ctx):
+    """R12.  An IR return/exit reaches the wasm generator as a jump to the epilog label.  Shapes only structure the edges
+    between blocks; leaving the FUNCTION from the middle of a loop or an if needs the wasm `return` instruction - without
+    it the path falls out of the enclosing construct and runs whatever follows (the follow-up shape, the next loop
+    iteration).  So the epilog-jump branch emits `return` on every path, after the frame was released and the result,
+    if there is one, was pushed."""
+    ctx.rule("C23.R12", "IR -> wasm, return: the jump to the epilog label emits the wasm `return` on every path (value or not), after the stack pointer is restored and the result register, if any, is pushed", floor=3)
+    dt = ctx.fn(F, "IrToWasmCompiler.do_tree")
+    br = [n for n in ast.walk(dt) if isinstance(n, ast.If) and norm(n.test) in ("tree.value is self.fi.epilog_label", "self.fi.epilog_label is tree.value")]
+    ctx.need(len(br) == 1, "do_tree: the branch for the jump to the epilog label was not found")
+    site = F + ":IrToWasmCompiler.do_tree"
+    def paths(body):
+        """list of event sequences, one per path through body"""
+        seqs = [[]]
+        for st in body:
+            if isinstance(st, ast.If):
+                a, b = paths(st.body), paths(st.orelse)
+                seqs = [x + y for x in seqs for y in a + b]
+                continue
+            ev = []
+            for c in ast.walk(st):
+                if isinstance(c, ast.Call) and norm(c.func) == "self.emit" and c.args and isinstance(c.args[0], ast.Constant):
+                    ev.append("emit:" + str(c.args[0].value))
+                elif isinstance(c, ast.Call) and norm(c.func) == "self.decrement_stack_pointer":
+                    ev.append("restore-sp")
+            # calls are found innermost-last by ast.walk on one statement; one emit per statement in this code
+            seqs = [x + ev for x in seqs]
+        return seqs
+    ps = paths(br[0].body)
+    ctx.ob("C23.R12", site, "every path through the epilog-jump branch ends with the wasm `return`", all(p and p[-1] == "emit:return" and p.count("emit:return") == 1 for p in ps), construct="return-on-every-path", node=br[0],
+           detail="paths: %s" % ps)
+    ctx.ob("C23.R12", site, "the frame is released (stack pointer restored) before the return on every path", all("restore-sp" in p and p.index("restore-sp") < len(p) - 1 for p in ps if p), construct="sp-restored-before-return", node=br[0])
+    withv = [p for p in ps if "emit:local.get" in p]
+    guard = [n for n in ast.walk(br[0]) if isinstance(n, ast.If) and n is not br[0] and "rv_vreg" in norm(n.test)]
+    ctx.ob("C23.R12", site, "the result register is pushed right before the return when the function has one", len(withv) >= 1 and all(p[-2] == "emit:local.get" for p in withv) and len(guard) == 1, construct="result-pushed", node=br[0])
